@@ -32,8 +32,12 @@ import (
 // Bounded-exhaustive fault enumeration against the real pkg/signer/file: ordered passphrase pairs, every truncation
 // and single-byte substitution of signer.json (modern and legacy salt-less format), export → import → load.
 //
+// Plus (env_test.go): the saved file must load in ANOTHER ENVIRONMENT / another process — an environment sweep over
+// GOMAXPROCS values and ambient process state (save under a, load/export/import under b), child processes with another
+// CPU affinity and process environment, and golden key files (/verif/golden/c19.json) written once, earlier.
+//
 // Clauses: panic, wrong-passphrase-rejected, right-passphrase-loads-same-key, loaded-signer-consistent,
-// legacy-passphrase-distinguishes, export-import.
+// legacy-passphrase-distinguishes, export-import, loads-in-other-environment, golden-keyfile-loads, golden-address.
 // Tags are computed from the INPUT of a case only (how the file was produced, which field the mutated byte lies in,
 // what the mutated file decodes to, how the two passphrases relate) — never from an error text or a panic value.
 
@@ -71,7 +75,7 @@ type mutation struct {
 
 // tcase is one explored input; it is also the replayable history of a violation ([]byte fields are base64 in JSON).
 type tcase struct {
-	Section    string   `json:"section"` // pairs | corrupt | roundtrip | legacy-derive
+	Section    string   `json:"section"` // pairs | corrupt | roundtrip | legacy-derive | environment | golden
 	Op         string   `json:"op"`      // load | export | roundtrip | derive
 	Origin     string   `json:"origin"`  // created (CreateFileSystemSigner) | imported (ImportPrivateKey) | legacy (harness-written, no salt)
 	File       []byte   `json:"file"`    // signer.json as written, before the mutation
@@ -85,6 +89,11 @@ type tcase struct {
 	ImportName string   `json:"import_name,omitempty"`
 	Overwrite  bool     `json:"overwrite,omitempty"` // roundtrip only: a different key file already exists at the import location
 	OtherFile  []byte   `json:"other_file,omitempty"`
+	// environment / golden sections (env_test.go)
+	SaveEnv string `json:"save_env,omitempty"` // name of the environment the file was written in ("golden": earlier, by another process)
+	LoadEnv string `json:"load_env,omitempty"` // name of the environment it is opened in
+	Golden  string `json:"golden,omitempty"`   // golden section: vector name
+	Addr    []byte `json:"addr,omitempty"`     // golden section: the address recorded when the file was written
 }
 
 func (c *tcase) describe() string {
@@ -98,6 +107,12 @@ func (c *tcase) describe() string {
 	s := fmt.Sprintf("%s/%s: %s file saved with passphrase <%s>, %s, %s with passphrase <%s>", c.Section, c.Op, c.Origin, c.SaveName, m, c.Op, c.LoadName)
 	if c.Op == "roundtrip" {
 		s += fmt.Sprintf(", import with <%s>, overwrite=%v", c.ImportName, c.Overwrite)
+	}
+	if c.Golden != "" {
+		s += ", golden vector " + c.Golden
+	}
+	if c.SaveEnv != "" || c.LoadEnv != "" {
+		s += fmt.Sprintf(", written in environment [%s], opened in environment [%s]", c.SaveEnv, c.LoadEnv)
 	}
 	return s
 }
@@ -178,6 +193,7 @@ func (c *tcase) tags() []string {
 	if len(c.LoadPass) == 0 {
 		t = append(t, "empty-passphrase")
 	}
+	t = append(t, c.envTags()...)
 	if c.Section == "legacy-derive" {
 		if len(c.SavePass) == 0 {
 			t = append(t, "legacy+empty-passphrase")
@@ -396,7 +412,7 @@ func evaluate(c *tcase, dir string) (v verdict) {
 			add("panic", "LoadFileSystemSigner panics: "+pan)
 		case err != nil:
 			if right && intact {
-				add("right-passphrase-loads-same-key", "LoadFileSystemSigner fails on an intact file with the right passphrase: "+err.Error())
+				add(c.rightClause("right-passphrase-loads-same-key"), "LoadFileSystemSigner fails on an intact file with the right passphrase: "+err.Error())
 			} else {
 				v.outcome = errClass(err)
 			}
@@ -405,10 +421,12 @@ func evaluate(c *tcase, dir string) (v verdict) {
 		default:
 			kind, msg := checkSigner(s, c.Priv)
 			switch {
+			case kind == "" && c.Addr != nil && !addrIs(s, c.Addr):
+				add("golden-address", fmt.Sprintf("the signer loaded from a key file written earlier reports an address different from the one recorded then (%x)", c.Addr))
 			case kind == "":
 				v.outcome = "ok"
 			case kind == "key" && intact:
-				add("right-passphrase-loads-same-key", msg)
+				add(c.rightClause("right-passphrase-loads-same-key"), msg)
 			default:
 				add("loaded-signer-consistent", msg)
 			}
@@ -420,14 +438,14 @@ func evaluate(c *tcase, dir string) (v verdict) {
 			add("panic", "ExportPrivateKey panics: "+pan)
 		case err != nil:
 			if right && intact {
-				add("export-import", "ExportPrivateKey fails on an intact file with the right passphrase: "+err.Error())
+				add(c.rightClause("export-import"), "ExportPrivateKey fails on an intact file with the right passphrase: "+err.Error())
 			} else {
 				v.outcome = errClass(err)
 			}
 		case !right:
 			add(wrongClause, "ExportPrivateKey returns a key although the passphrase differs from the one the key was saved with")
 		case !bytes.Equal(k, c.Priv):
-			add("export-import", fmt.Sprintf("ExportPrivateKey returns %d bytes that are not the saved private key", len(k)))
+			add(c.rightClause("export-import"), fmt.Sprintf("ExportPrivateKey returns %d bytes that are not the saved private key", len(k)))
 		default:
 			v.outcome = "ok"
 		}
@@ -654,6 +672,7 @@ func TestCheck(t *testing.T) {
 		"the file system returns what was written (plain os.WriteFile / os.ReadFile in a temp dir)",
 		"Ed25519, AES-GCM, Argon2id and encoding/json behave as specified (trusted libraries); a forged GCM tag is out of reach of single-byte mutations",
 		"legacy (salt-less) files are AES-256-GCM under fallbackDeriveKey(passphrase, 32) with the same JSON field names; written by the harness through a verif hook exposing that function",
+		"the golden key files in /verif/golden/c19.json were written by the pinned tree (throw-away keys, seeded randomness) and are what an earlier process left on disk; child processes are this test binary re-executed under taskset / with other variables",
 		"a mutated file that still decodes to exactly the original key material (base64 trailing bits, JSON key case) is allowed to load",
 		"keys, salts and nonces come from a seeded deterministic source (testing/cryptotest.SetGlobalRandom) so that the enumerated files are the same on every run",
 	}
@@ -666,12 +685,27 @@ func TestCheck(t *testing.T) {
 	}
 	defer os.RemoveAll(root)
 
+	if os.Getenv("VERIF_C19_GOLDEN") == "write" {
+		if err := writeGolden(t, root); err != nil {
+			r.EngineError("cannot write golden file: " + err.Error())
+		} else {
+			fmt.Println("C19: golden key files written to", goldenPath())
+		}
+	}
+	golden, err := loadGolden()
+	if err != nil {
+		r.EngineError("golden key files missing (generate once from the pinned tree: VERIF_C19_GOLDEN=write ./check C19 quick): " + err.Error())
+		r.Finish(vf.Coverage{})
+		return
+	}
+
 	if r.ReplayPath() != "" {
 		var c tcase
 		if _, err := r.LoadReplay(&c); err != nil {
 			r.EngineError(err.Error())
+		} else if v, err := evaluateIn(&c, root); err != nil {
+			r.EngineError(err.Error())
 		} else {
-			v := evaluate(&c, root)
 			for _, x := range v.viol {
 				r.Report(x)
 			}
@@ -685,6 +719,20 @@ func TestCheck(t *testing.T) {
 	P := passphrases()
 	var cases []*tcase
 	counts := map[string]int{}
+	// breakdown of everything the oracle flagged (known or not) by clause and input features, for the evidence file
+	var tmu sync.Mutex
+	breakdown := map[string]int{}
+	tally := func(x vf.Violation) {
+		var feat []string
+		for _, tg := range x.Tags {
+			if !strings.HasPrefix(tg, "mutation=") && !strings.HasPrefix(tg, "save-env=") && !strings.HasPrefix(tg, "load-env=") && tg != "right-passphrase" {
+				feat = append(feat, tg)
+			}
+		}
+		tmu.Lock()
+		breakdown[x.Clause+" ["+strings.Join(feat, " ")+"]"]++
+		tmu.Unlock()
+	}
 
 	// base files
 	created := make([]base, len(P))
@@ -764,6 +812,21 @@ func TestCheck(t *testing.T) {
 	}
 	counts["corruption_cases"] = len(cases) - n0
 
+	// 5: files written earlier (golden), opened by the workers in the environment the check started in
+	n0 = len(cases)
+	for _, gv := range golden.Vectors {
+		cases = append(cases, goldenCase(gv, "load", true, envAsStarted), goldenCase(gv, "load", false, envAsStarted), goldenCase(gv, "export", true, envAsStarted))
+	}
+	counts["golden_cases"] = len(cases) - n0
+
+	// 6: the saved file opens in another environment — process-global switches, hence serial and before any worker starts
+	envStart := time.Now()
+	envRes := envPhase(t, r, root, golden, tally)
+	for k, n := range envRes.counts {
+		counts[k] = n
+	}
+	envSeconds := time.Since(envStart).Seconds()
+
 	// run
 	deadline := time.Now().Add(vf.Pick(r, 50*time.Second, 14*time.Minute))
 	workers := runtime.NumCPU()
@@ -771,22 +834,10 @@ func TestCheck(t *testing.T) {
 		workers = 16
 	}
 	var next, done, nontrivial, engine atomic.Int64
+	done.Add(envRes.evaluations)
+	nontrivial.Add(envRes.evaluations) // every environment case is an intact file that reaches key derivation
 	var capped atomic.Bool
 	var wg sync.WaitGroup
-	// breakdown of everything the oracle flagged (known or not) by clause and input features, for the evidence file
-	var tmu sync.Mutex
-	breakdown := map[string]int{}
-	tally := func(x vf.Violation) {
-		var feat []string
-		for _, tg := range x.Tags {
-			if !strings.HasPrefix(tg, "mutation=") && tg != "right-passphrase" {
-				feat = append(feat, tg)
-			}
-		}
-		tmu.Lock()
-		breakdown[x.Clause+" ["+strings.Join(feat, " ")+"]"]++
-		tmu.Unlock()
-	}
 	for w := 0; w < workers; w++ {
 		wg.Add(1)
 		go func(w int) {
@@ -834,7 +885,7 @@ func TestCheck(t *testing.T) {
 
 	var caps []string
 	if capped.Load() {
-		caps = append(caps, fmt.Sprintf("deadline reached after %d of %d cases", done.Load(), len(cases)))
+		caps = append(caps, fmt.Sprintf("deadline reached after %d of %d worker cases", done.Load()-envRes.evaluations, len(cases)))
 	}
 	names := make([]string, len(P))
 	for i, p := range P {
@@ -850,10 +901,15 @@ func TestCheck(t *testing.T) {
 		"roundtrip_import_passes": len(importPs),
 		"cases":                   counts,
 		"workers":                 workers,
+		"golden_vectors":          len(golden.Vectors),
+		"environment_phase_s":     envSeconds,
+	}
+	for k, v := range envRes.bounds {
+		bounds[k] = v
 	}
 	r.Finish(vf.Coverage{
 		Evaluations: done.Load(), DistinctNontrivial: nontrivial.Load(), States: int64(r.DistinctOutcomes()), Transitions: done.Load(),
-		Rule:       "plain nested loops, no sampling: every ordered (save,load) pair of the passphrase set × {created by the real writer, legacy salt-less} × {load, export}; every truncation length and every (position, replacement byte ≠ original) of signer.json, loaded/exported with the right passphrase; export→import→load/export for every save passphrase × import passphrases × {fresh, overwrite}. Each case is a distinct input by construction; non-trivial = the input file still decodes as the key-file JSON (so key derivation and decryption are reached) or is an unmutated pair/roundtrip; states = distinct (section, op, origin, result class) outcomes",
+		Rule:       "plain nested loops, no sampling: every ordered (save,load) pair of the passphrase set × {created by the real writer, legacy salt-less} × {load, export}; every truncation length and every (position, replacement byte ≠ original) of signer.json, loaded/exported with the right passphrase; export→import→load/export for every save passphrase × import passphrases × {fresh, overwrite}; every ordered (written-in, opened-in) pair of environments within the GOMAXPROCS group and within the ambient (variables, cwd, umask) group, the check's process ↔ each re-executed child process, and every golden key file in every environment (serial phase before the workers; process globals restored afterwards). Each case is a distinct input by construction; non-trivial = the input file still decodes as the key-file JSON (so key derivation and decryption are reached) or is an unmutated pair/roundtrip; states = distinct (section, op, origin, result class) outcomes",
 		Exhaustive: !capped.Load(), Caps: caps, Bounds: bounds,
 		Extra: map[string]any{"oracle_failures_by_clause_and_input_features": breakdown},
 	})
